@@ -117,7 +117,7 @@ structure Pending where
   gen : Nat
   lo : Nat
   hi : Nat
-  toCommit : List Bool           -- ordered? of each non-empty file not yet visible
+  toCommit : List (Bool × Nat)   -- (ordered?, measurement) of each file not yet visible
   toRemove : List Nat            -- partitions whose old WAL files are not yet removed
 deriving Repr, DecidableEq
 
@@ -134,14 +134,14 @@ def PState.init (n : Nat) : PState := ⟨Hist.init n, ⟨[], []⟩, none⟩
 def pendingOf (h : Hist) (d : Durable) : Pending :=
   let g := h.gens.headD ⟨0, 0, 0, [], []⟩
   ⟨g.no, g.lo, g.hi,
-    (if g.ooo.isEmpty then [] else [false]) ++ (if g.ordered.isEmpty then [] else [true]),
+    ((g.ooo.map fun c => (false, mstOf c.s)) ++ (g.ordered.map fun c => (true, mstOf c.s))).eraseDups,
     ((d.wal.filter fun r => g.lo ≤ r.2 ∧ r.2 < g.hi).map (·.1)).eraseDups⟩
 
 def PState.append (s : PState) (b : List Row) : PState :=
   ⟨s.h.write b, ⟨s.d.vis, s.d.wal ++ [(s.h.st.ctr % s.h.st.nParts, s.h.batches.length)]⟩, s.pending⟩
 def PState.switch (s : PState) : PState := ⟨s.h.flush, s.d, some (pendingOf s.h.flush s.d)⟩
-def PState.commit (s : PState) (p : Pending) (k : Bool) : PState :=
-  ⟨s.h, ⟨(p.gen, k) :: s.d.vis, s.d.wal⟩, some { p with toCommit := p.toCommit.erase k }⟩
+def PState.commit (s : PState) (p : Pending) (k : Bool × Nat) : PState :=
+  ⟨s.h, ⟨(p.gen, k.1, k.2) :: s.d.vis, s.d.wal⟩, some { p with toCommit := p.toCommit.erase k }⟩
 def PState.remove (s : PState) (p : Pending) (q : Nat) : PState :=
   ⟨s.h, ⟨s.d.vis, s.d.wal.filter fun r => ¬ (r.1 = q ∧ p.lo ≤ r.2 ∧ r.2 < p.hi)⟩,
     some { p with toRemove := p.toRemove.erase q }⟩
@@ -152,7 +152,7 @@ happen between any two of them; whatever `d` is then is what recovery starts fro
 inductive PStep : PState → PState → Prop
   | append (s : PState) (b : List Row) : PStep s (s.append b)
   | switch (s : PState) (hp : s.pending = none) : PStep s s.switch
-  | commit (s : PState) (p : Pending) (k : Bool) (hp : s.pending = some p) (hk : k ∈ p.toCommit) :
+  | commit (s : PState) (p : Pending) (k : Bool × Nat) (hp : s.pending = some p) (hk : k ∈ p.toCommit) :
       PStep s (s.commit p k)
   | remove (s : PState) (p : Pending) (q : Nat) (hp : s.pending = some p) (hc : p.toCommit = [])
       (hq : q ∈ p.toRemove) : PStep s (s.remove p q)
@@ -198,21 +198,21 @@ def witnessHist : Hist :=
 removed partition 1's WAL file but not yet partition 0's. Replaying the surviving record (`old`)
 over the file brings the older value back. -/
 theorem wal_removal_window_unsafe :
-    lookup (0, 1, "f") (recoveredCells witnessHist ⟨[(1, true)], [(0, 0)]⟩) = some "old" ∧
+    lookup (0, 1, "f") (recoveredCells witnessHist ⟨[(1, true, 0)], [(0, 0)]⟩) = some "old" ∧
     lwwMap (witnessHist.batches.flatten) (0, 1, "f") = some "new" ∧
-    safeDurable witnessHist ⟨[(1, true)], [(0, 0)]⟩ = false := by
+    safeDurable witnessHist ⟨[(1, true, 0)], [(0, 0)]⟩ = false := by
   decide
 
 /-- the protocol execution that reaches that state. -/
 def wsA0 : PState := ((PState.init 2).append [⟨0, 1, [("f", "old")]⟩]).append [⟨0, 1, [("f", "new")]⟩]
 def wsA1 : PState := wsA0.switch
-def wsA2 : PState := wsA1.commit (pendingOf wsA1.h wsA1.d) true
+def wsA2 : PState := wsA1.commit (pendingOf wsA1.h wsA1.d) (true, 0)
 def wsA3 : PState := wsA2.remove { pendingOf wsA1.h wsA1.d with toCommit := [] } 1
 
 theorem wsA3_reachable : Reach 2 wsA3 := by
   have r0 : Reach 2 wsA0 := (Reach.init.step (PStep.append _ _)).step (PStep.append _ _)
   have r1 : Reach 2 wsA1 := r0.step (PStep.switch _ rfl)
-  have r2 : Reach 2 wsA2 := r1.step (PStep.commit _ _ true rfl (by decide))
+  have r2 : Reach 2 wsA2 := r1.step (PStep.commit _ _ (true, 0) rfl (by decide))
   exact r2.step (PStep.remove _ _ 1 (by decide) rfl (by decide))
 
 /-- **the full statement is false of the code as it is.** -/
@@ -252,14 +252,14 @@ theorem wsB_is_witness : wsB.d.vis = [] ∧ wsB.d.wal = [(0, 0), (0, 1), (1, 2)]
 
 /-- non-vacuity of T1: after the flush has completed (file visible, old WAL files gone) and one
 more batch has been written, the state is safe and the new batch is there. -/
-example : safeDurable witnessHist2 ⟨[(1, true)], [(0, 1), (1, 2)]⟩ = true ∧
-    lookup (0, 1, "f") (recoveredCells witnessHist2 ⟨[(1, true)], [(0, 1), (1, 2)]⟩) = some "new" := by
+example : safeDurable witnessHist2 ⟨[(1, true, 0)], [(0, 1), (1, 2)]⟩ = true ∧
+    lookup (0, 1, "f") (recoveredCells witnessHist2 ⟨[(1, true, 0)], [(0, 1), (1, 2)]⟩) = some "new" := by
   decide
 
 /-- a record cut short by the crash is not part of the durable state: the batch it carried is
 simply absent, never partially present (the reader's side of this is C07 `wal_prefix_safe`). -/
-example : recoveredCells witnessHist2 ⟨[(1, true)], [(0, 1)]⟩ =
-    histOf [[⟨0, 1, [("f", "old")]⟩]] ++ fileCells witnessHist2 ⟨[(1, true)], [(0, 1)]⟩ := by
+example : recoveredCells witnessHist2 ⟨[(1, true, 0)], [(0, 1)]⟩ =
+    histOf [[⟨0, 1, [("f", "old")]⟩]] ++ fileCells witnessHist2 ⟨[(1, true, 0)], [(0, 1)]⟩ := by
   decide
 
 end OG.C01
